@@ -11,6 +11,8 @@ Definition er_of_out (r : res outv) : er :=
   | Ok ONone => EV MNone
   | Ok (OVal v) => EV (MVal v)
   | Ok (OItem k v) => EV (MItem k v)
+  | Ok (OBool b) => EV (MBool b)
+  | Ok (ONat n) => EV (MNat n)
   | Ok _ => EStuck
   | Raise e => ERaise e
   end.
@@ -257,3 +259,116 @@ Qed.
 Lemma method_side_conditions pr l ids k :
   Rep pr l ids -> NoDup (keys l) -> link_has_value pr k /\ moved_link_has_value pr k.
 Proof. intros. split; [eapply rep_link_has_value|eapply rep_moved_link_has_value]; eassumption. Qed.
+
+(* ---- __contains__, __len__, __ior__, __eq__, __ne__ ------------------------------------------------------ *)
+Lemma genm_contains_ok c p k :
+  genm_present = true ->
+  call_method c genm_contains (params k MNone MNone MNone MNone) p = of_step (pstep1 c p (Contains k)).
+Proof. obl ltac:(destruct p as [st rg h m s cl]; unfold call_method, genm_contains, of_step; simpl pstep1; crush). Qed.
+
+Lemma genm_len_ok c p :
+  genm_present = true ->
+  call_method c genm_len (params 0 MNone MNone MNone MNone) p = of_step (pstep1 c p Len).
+Proof. obl ltac:(destruct p as [st rg h m s cl]; unfold call_method, genm_len, of_step; simpl pstep1; crush). Qed.
+
+Definition of_self (x : pcache * res outv) : pcache * er :=
+  match x with (p, Ok _) => (p, EV MSelf) | (p, Raise e) => (p, ERaise e) end.
+
+Lemma genm_ior_pairs_ok c p e :
+  genm_present = true ->
+  call_method c genm_ior (params 0 MNone MNone (MSeq e) MNone) p = of_self (pstep1 c p (IOr e)).
+Proof.
+  obl ltac:(unfold call_method, genm_ior, of_self; simpl pstep1; cbn -[psetitems];
+            destruct (psetitems c p e) as [? [?|?]]; reflexivity).
+Qed.
+
+Lemma genm_ior_mapping_ok c p e :
+  genm_present = true ->
+  call_method c genm_ior (params 0 MNone MNone (MMap e) MNone) p = of_self (pstep1 c p (IOr e)).
+Proof.
+  obl ltac:(unfold call_method, genm_ior, of_self; simpl pstep1; cbn -[psetitems];
+            destruct (psetitems c p e) as [? [?|?]]; reflexivity).
+Qed.
+
+Lemma pcache_eq_dict_eq p d : pcache_eq p d = dict_eq (ps_store p) d.
+Proof.
+  unfold pcache_eq, dict_eq. destruct (Nat.eqb_spec (length d) (length (ps_store p))) as [E|NE]; simpl.
+  - reflexivity.
+  - destruct (Nat.eqb_spec (length (ps_store p)) (length d)); [congruence|reflexivity].
+Qed.
+
+Lemma genm_eq_dict_ok c p d :
+  genm_present = true ->
+  call_method c genm_eq (params 0 MNone MNone (MMap d) MNone) p = of_step (pstep1 c p (EqDict d)).
+Proof.
+  obl ltac:(unfold call_method, genm_eq, of_step; simpl pstep1; rewrite pcache_eq_dict_eq; reflexivity).
+Qed.
+
+Lemma genm_eq_self_ok c p :
+  genm_present = true ->
+  call_method c genm_eq (params 0 MNone MNone MSelf MNone) p = (p, EV (MBool true)).
+Proof. obl ltac:(destruct p; reflexivity). Qed.
+
+(* for an operand that is not a mapping dict.__eq__ answers NotImplemented (and Python's == then False) *)
+Lemma genm_eq_other_ok c p :
+  genm_present = true ->
+  call_method c genm_eq (params 0 MNone MNone MNone MNone) p = (p, EV MNotImplemented).
+Proof. obl ltac:(destruct p; reflexivity). Qed.
+
+Lemma genm_ne_dict_ok c p d :
+  genm_present = true ->
+  call_method c genm_ne (params 0 MNone MNone (MMap d) MNone) p = of_step (pstep1 c p (NeDict d)).
+Proof. obl ltac:(destruct p; reflexivity). Qed.
+
+Lemma genm_ne_other_ok c p :
+  genm_present = true ->
+  call_method c genm_ne (params 0 MNone MNone MNone MNone) p = of_step (pstep1 c p NeOther).
+Proof. obl ltac:(destruct p; reflexivity). Qed.
+
+(* ---- copy(), __copy__ ------------------------------------------------------------------------------------- *)
+(* a loop whose body assigns into another cache held by the local x0 *)
+Lemma loop_pairs_obj c runb x y x0 :
+  (forall s k w q, ms_env s x0 = MObj q -> exists s',
+      runb (bind (bind s x (MKey k)) y (MVal w)) = (s', outc (snd (psetitem c q k w)))
+      /\ ms_cache s' = ms_cache s /\ ms_env s' x0 = MObj (fst (psetitem c q k w))) ->
+  forall l s q, ms_env s x0 = MObj q -> exists s',
+      loop_pairs runb x y l s = (s', outc (snd (psetitems c q l)))
+      /\ ms_cache s' = ms_cache s /\ ms_env s' x0 = MObj (fst (psetitems c q l)).
+Proof.
+  intros HB l. induction l as [|[k w] rest IH]; intros s q E.
+  - exists s. simpl. auto.
+  - cbn [loop_pairs psetitems]. destruct (HB s k w q E) as [s1 [R1 [C1 E1]]]. rewrite R1.
+    destruct (psetitem c q k w) as [q1 [u|ex]]; cbn [fst snd outc] in *.
+    + destruct (IH s1 q1 E1) as [s2 [R2 [C2 E2]]]. exists s2. rewrite R2. repeat split; congruence.
+    + exists s1. auto.
+Qed.
+
+Definition of_copy (p : pcache) (x : pcache * res unit) : pcache * er :=
+  match x with (q, Ok _) => (p, EV (MObj q)) | (_, Raise e) => (p, ERaise e) end.
+
+Lemma genm_copy_ok c p :
+  genm_present = true ->
+  call_method c genm_copy (params 0 MNone MNone MNone MNone) p = of_copy p (pcopy_cache c p).
+Proof.
+  obl ltac:(unfold call_method, genm_copy, of_copy, pcopy_cache; cbn -[loop_pairs psetitems p_flatten];
+    match goal with |- context [loop_pairs ?r ?x ?y ?l ?s] =>
+      let LP := fresh "LP" in
+      pose proof (fun HB => loop_pairs_obj c r x y 0 HB l s p_empty eq_refl) as LP;
+      destruct LP as [s' [R [C E]]];
+      [ (let s0 := fresh "s" in let k0 := fresh "k" in let w0 := fresh "w" in let q0 := fresh "q" in
+         let G := fresh "G" in
+         intros s0 k0 w0 q0 G; cbn; rewrite G; unfold of_er; cbn;
+         destruct (psetitem c q0 k0 w0) as [? [?|?]]; eexists; cbn; repeat split; reflexivity)
+      | rewrite R; clear R;
+        destruct (psetitems c p_empty (p_flatten (ps_ring p))) as [q [u|ex]]; cbn [outc fst snd] in *;
+        [ rewrite C, E; destruct p; reflexivity | rewrite C; destruct p; reflexivity ] ]
+    end).
+Qed.
+
+Lemma genm_copy_module_ok c p :
+  genm_present = true ->
+  call_method c genm_copy_module (params 0 MNone MNone MNone MNone) p = of_copy p (pcopy_cache c p).
+Proof.
+  obl ltac:(unfold call_method, genm_copy_module, of_copy; cbn -[pcopy_cache];
+            destruct (pcopy_cache c p) as [q [u|ex]]; destruct p; reflexivity).
+Qed.
